@@ -456,7 +456,7 @@ def typed_local(e):
 class C03(Prop):
     id = "C03"
     title = "Compiled bytecode computes exactly what LPC semantics define"
-    lean_modules = ["NV.C03.Props", "NV.C03.Props2", "NV.C03.Witness"]
+    lean_modules = ["NV.C03.Props", "NV.C03.Props2", "NV.C03.Props3", "NV.C03.Witness"]
     theorems = []          # filled below
     witness_theorems = []
     consts = [("oldRangeBehavior", "NV_OLD_RANGE"), ("switchCaseSize", "SWITCH_CASE_SIZE")]
@@ -1113,6 +1113,9 @@ PROP.theorems = ["NV.C03." + t for t in (
     "incdec_agrees", "index_agrees", "rindex_agrees", "lvget_agrees", "fold_sound", "fold_sound_spec", "fold_un_sound",
     "rewrite_eq_zero_sound", "rewrite_add_zero_sound", "rewrite_not_cond_sound", "rewrite_ne_zero_sound", "literal_roundtrip",
     "while_dec_agrees", "loop_cond_num_agrees", "loop_cond_local_agrees", "switch_direct_agrees",
+    "lvset_agrees_partial", "lvset_agrees_repaired", "range_lvalue_agrees", "storeRange_agrees", "cut_eq_slice",
+    "sliceArray_eq_slice", "range_agrees_repaired", "range_quirks_irrelevant", "range_agrees_partial",
+    "extract_agrees_repaired", "extract_quirks_irrelevant", "extract_agrees_partial",
     "wrap_id", "wrap_range", "tdiv_range", "tmod_range", "idiv_eq", "imod_eq")]
 PROP.witness_theorems = ["NV.C03." + t for t in (
     "witness_num_opeq_real", "witness_addeq_num_str", "assignop_agrees_Full_false", "witness_buf_store_zero",
